@@ -24,7 +24,9 @@ import (
 	"go/ast"
 	"go/token"
 	"go/types"
+	"os"
 	"sort"
+	"strconv"
 	"strings"
 
 	"golang.org/x/tools/go/ssa"
@@ -46,7 +48,126 @@ var extraAnchors = map[string][]string{
 	"C20": {pkgWriter + "\tChannelWriter\tWaitObjReady", pkgWriter + "\tChannelWriter\tWaitPartitionReady", pkgWriter + "\tChannelWriter\tWaitCollectionReady", pkgWriter + "\t\tUpdateMsgBase"},
 }
 
+// derivedDepth > 0 adds the repository functions statically called (transitively, up to that depth) from the anchored
+// functions and their literals.
+var derivedDepth = func() int {
+	if v := os.Getenv("VERIF_DERIVED"); v != "" {
+		n, _ := strconv.Atoi(v)
+		return n
+	}
+	return 2
+}()
+
+// onlyLogged: the call's result is consumed by logging / metrics calls only (zap.Any("pack", util.MsgPackInfoForLog(p))):
+// the callee is a presentation helper, not part of the mechanism.
+func onlyLogged(ci ssa.CallInstruction) bool {
+	v := ci.Value()
+	if v == nil || v.Referrers() == nil || len(*v.Referrers()) == 0 {
+		return false
+	}
+	seen := map[ssa.Value]bool{}
+	var walk func(x ssa.Value, d int) bool
+	walk = func(x ssa.Value, d int) bool {
+		if seen[x] {
+			return true
+		}
+		seen[x] = true
+		if d > 4 || x.Referrers() == nil {
+			return false
+		}
+		n := 0
+		for _, ref := range *x.Referrers() {
+			switch y := ref.(type) {
+			case *ssa.DebugRef:
+				continue
+			case *ssa.MakeInterface:
+				n++
+				if !walk(y, d+1) {
+					return false
+				}
+			case *ssa.Call:
+				n++
+				s := callSym(y.Common())
+				if !(strings.HasSuffix(s.pkg, "/log") || strings.Contains(s.pkg, "zap")) {
+					return false
+				}
+				if y.Referrers() != nil && len(*y.Referrers()) > 0 && !walk(y, d+1) {
+					return false
+				}
+			case *ssa.Store:
+				// stored into the variadic slice of a log call
+				n++
+				ia, ok := y.Addr.(*ssa.IndexAddr)
+				if !ok {
+					return false
+				}
+				if !walk(ia.X, d+1) {
+					return false
+				}
+			case *ssa.Slice:
+				n++
+				if !walk(y, d+1) {
+					return false
+				}
+			case *ssa.IndexAddr:
+				continue
+			default:
+				return false
+			}
+		}
+		return n > 0
+	}
+	return walk(v, 0)
+}
+
 func anchoredFuncs(w *World, prop string) []*ssa.Function {
+	base := anchoredFuncs0(w, prop)
+	if derivedDepth <= 0 {
+		return base
+	}
+	return append(base, derivedFuncs(w, base, derivedDepth)...)
+}
+
+func derivedFuncs(w *World, base []*ssa.Function, depth int) []*ssa.Function {
+	seen := map[*ssa.Function]bool{}
+	for _, f := range base {
+		seen[f] = true
+	}
+	var out []*ssa.Function
+	frontier := base
+	for d := 0; d < depth && len(frontier) > 0; d++ {
+		var next []*ssa.Function
+		for _, root := range frontier {
+			for _, fn := range familyOf(root).Funcs {
+				eachInstr(fn, func(in ssa.Instruction) {
+					ci, ok := in.(ssa.CallInstruction)
+					if !ok {
+						return
+					}
+					cal := ci.Common().StaticCallee()
+					if cal == nil || cal.Pkg == nil || !w.isRepoPkg(cal.Pkg.Pkg.Path()) || cal.Parent() != nil || len(cal.Blocks) == 0 || cal.Synthetic != "" {
+						return
+					}
+					if o := cal.Origin(); o != nil {
+						cal = o
+					}
+					p := cal.Pkg.Pkg.Path()
+					if strings.Contains(p, "/mocks") || strings.Contains(p, "/pb") || strings.HasSuffix(p, "/log") || strings.HasSuffix(p, "/metrics") || seen[cal] || onlyLogged(ci) {
+						return
+					}
+					seen[cal] = true
+					next = append(next, cal)
+					out = append(out, cal)
+				})
+			}
+		}
+		frontier = next
+	}
+	sort.Slice(out, func(i, j int) bool { return sigKeyOf(out[i]) < sigKeyOf(out[j]) })
+	return out
+}
+
+func anchoredFuncs0(w *World, prop string) []*ssa.Function {
 	if anchorFuncs == nil {
 		json.Unmarshal(anchorFuncsJSON, &anchorFuncs)
 	}
@@ -392,6 +513,94 @@ func genericRules(w *World, r *Report, prop string) {
 		}
 	}
 	r.OK(prop+"-G9", "census", 0, fmt.Sprintf("%d functions inspected", nG9))
+	// ---- G10 a read-modify-write of shared state stays in one critical section
+	r.Rule(prop+"-G10", "read-modify-write in one critical section", "in the same functions: a value stored into a field (or map) of the receiver / a parameter / a package variable that derives from a read of the same field made under a lock is stored before that lock is released (no snapshot read in one critical section is written back in a later one)", 0)
+	nG10 := 0
+	for _, root := range fns {
+		for _, fn := range familyOf(root).Funcs {
+			host := shortFn2(fn)
+			var unlocks []*ssa.Call
+			eachInstr(fn, func(in ssa.Instruction) {
+				if c, isC := in.(*ssa.Call); isC {
+					if _, k := w.lockFactsGen(in); len(k) > 0 {
+						unlocks = append(unlocks, c)
+					}
+				}
+			})
+			if len(unlocks) == 0 {
+				continue
+			}
+			k := 0
+			eachInstr(fn, func(in ssa.Instruction) {
+				var target, val ssa.Value
+				switch x := in.(type) {
+				case *ssa.Store:
+					if _, isF := x.Addr.(*ssa.FieldAddr); !isF {
+						return
+					}
+					target, val = x.Addr, x.Val
+				case *ssa.MapUpdate:
+					target, val = x.Map, x.Value
+				default:
+					return
+				}
+				tp := w.accessPath(target)
+				if !(strings.HasPrefix(tp, "param:") || strings.HasPrefix(tp, "global:") || strings.HasPrefix(tp, "free:")) {
+					return
+				}
+				for _, v := range backSlice(val, SliceOpts{MaxDepth: 8, NoAggregates: true}) {
+					var rd ssa.Instruction
+					switch y := v.(type) {
+					case *ssa.UnOp:
+						if y.Op == token.MUL {
+							if _, isF := y.X.(*ssa.FieldAddr); isF && w.accessPath(y.X) == tp {
+								rd = y
+							}
+						}
+					case *ssa.Lookup:
+						if _, isMap := y.X.Type().Underlying().(*types.Map); isMap && w.accessPath(y.X) == tp {
+							if _, isMU := in.(*ssa.MapUpdate); isMU {
+								rd = y
+							}
+						}
+					}
+					if rd == nil || rd.Parent() != fn || len(w.locksHeldAt(rd)) == 0 {
+						continue
+					}
+					nG10++
+					var between *ssa.Call
+					for _, u := range unlocks {
+						if _, kl := w.lockFactsGen(u); len(kl) == 0 || !w.locksHeldAt(rd)[kl[0]] {
+							continue // releases a lock the read was not made under
+						}
+						if rd.Block() == in.Block() && instrIndex(rd) < instrIndex(in) {
+							if u.Block() == rd.Block() && instrIndex(rd) < instrIndex(u) && instrIndex(u) < instrIndex(in) {
+								between = u
+							}
+							continue
+						}
+						// read -> unlock without passing the write's block, unlock -> write without passing the read's block
+						r1 := u.Block() == rd.Block() && instrIndex(rd) < instrIndex(u)
+						if !r1 && u.Block() != rd.Block() {
+							r1 = blockReach(rd.Block(), map[*ssa.BasicBlock]bool{in.Block(): true})[u.Block()]
+						}
+						r2 := u.Block() == in.Block() && instrIndex(u) < instrIndex(in)
+						if !r2 && u.Block() != in.Block() {
+							r2 = blockReach(u.Block(), map[*ssa.BasicBlock]bool{rd.Block(): true})[in.Block()]
+						}
+						if r1 && r2 {
+							between = u
+						}
+					}
+					if between != nil {
+						k++
+						r.Fail(prop+"-G10", fmt.Sprintf("%s | %s written from a stale read #%d", host, pathTail(tp), k), in.Pos(), "the value stored into "+tp+" derives from a read of the same location made in an earlier critical section (the lock is released at "+w.pos(between.Pos())+" between the read and the write): an update made by another goroutine in between is overwritten")
+					}
+				}
+			})
+		}
+	}
+	r.OK(prop+"-G10", "census", 0, fmt.Sprintf("%d locked read-modify-write pairs inspected", nG10))
 	// ---- G7 lock pairing
 	r.Rule(prop+"-G7", "locks are paired", "in the same functions: a mutex / key lock taken on every path to a return is released before it (directly or by a deferred unlock), and every unlock releases a lock that is held on every path reaching it", 0)
 	nLocks := 0
@@ -405,6 +614,17 @@ func genericRules(w *World, r *Report, prop string) {
 				}
 			})
 			if !has {
+				continue
+			}
+			// a pure acquire / release wrapper (its only call is the lock operation itself, e.g. LockTargetChannel /
+			// UnLockTargetChannel) pairs at its callers, not inside itself
+			nCallsHere := 0
+			eachInstr(fn, func(in ssa.Instruction) {
+				if _, isC := in.(ssa.CallInstruction); isC {
+					nCallsHere++
+				}
+			})
+			if nCallsHere == 1 && fn.Parent() == nil {
 				continue
 			}
 			deferred := map[string]bool{}
@@ -522,6 +742,24 @@ func genericRules(w *World, r *Report, prop string) {
 					pos = v.Pos()
 				}
 				used := errUsedFrom(fam, v, nn)
+				if !used && len(nn.Preds) == 1 {
+					// a function that cannot return an error (no error result) and logs the failure on its branch has
+					// made the decision visible (util.Base64Msg: log and return "")
+					res := fn.Signature.Results()
+					canReturn := res.Len() > 0 && isErrorType(res.At(res.Len()-1).Type())
+					if !canReturn && fn.Parent() == nil {
+						for _, b2 := range fn.Blocks {
+							if b2 != nn && !nn.Dominates(b2) {
+								continue
+							}
+							for _, x := range b2.Instrs {
+								if c, isC := x.(*ssa.Call); isC && (strings.HasSuffix(callSym(c.Common()).pkg, "/log") || strings.Contains(callSym(c.Common()).pkg, "zap")) {
+									used = true
+								}
+							}
+						}
+					}
+				}
 				if why, isAllowed := g2Allowed[host+" | "+oname]; isAllowed && !used {
 					r.OK(prop+"-G2", cons, pos, "enumerated deliberate site: "+why)
 					continue
@@ -1090,4 +1328,23 @@ func pendingErrorOverwrites(fam *Family, fn *ssa.Function) []pendingOverwrite {
 		}
 	}
 	return out
+}
+
+func printDerivedCensus(w *World) {
+	for i := 1; i <= 20; i++ {
+		p := fmt.Sprintf("C%02d", i)
+		b := anchoredFuncs0(w, p)
+		fmt.Printf("%s anchored=%d", p, len(b))
+		for d := 1; d <= 4; d++ {
+			fmt.Printf(" d%d=%d", d, len(derivedFuncs(w, b, d)))
+		}
+		fmt.Println()
+	}
+}
+
+func printDerivedList(w *World, p string) {
+	b := anchoredFuncs0(w, p)
+	for _, f := range derivedFuncs(w, b, derivedDepth) {
+		fmt.Println(p, shortFn2(f))
+	}
 }
